@@ -7,9 +7,11 @@
 
 import logging
 from collections import defaultdict
+from itertools import chain
 from ..graph.graph import Node
 from ..graph.maskable_graph import MaskableGraph
 from ..arch.registers import Register
+from ..utils.collections import OrderedSet
 
 
 class InterferenceGraphNode(Node):
@@ -17,8 +19,8 @@ class InterferenceGraphNode(Node):
 
     def __init__(self, graph, vreg):
         super().__init__(graph)
-        self.temps = {vreg}
-        self.moves = set()
+        self.temps = OrderedSet([vreg])
+        self.moves = OrderedSet()
         self.reg = vreg if vreg.is_colored else None
         self.reg_class = type(vreg)
 
@@ -49,19 +51,34 @@ class InterferenceGraph(MaskableGraph):
 
     def calculate_interference(self, flowgraph):
         """Construct interference graph"""
+        # The liveness sets are plain sets of register objects. Visit their
+        # members in order of first appearance in the instruction stream,
+        # such that the graph does not depend on object hash values:
+        order = {}
+        for n in flowgraph:
+            for ins in n.instructions:
+                for reg in chain(
+                    ins.used_registers, ins.defined_registers, ins.clobbers
+                ):
+                    order.setdefault(reg, len(order))
+
         for n in flowgraph:
             for ins in n.instructions:
                 # ins.live_out |= ins.
-                for tmp in ins.live_in:
+                for tmp in sorted(ins.live_in, key=order.__getitem__):
                     self.get_node(tmp)
 
                 # Live out and zero length defined variables:
-                live_and_def = ins.live_out | ins.kill
+                live_and_def = sorted(
+                    ins.live_out | ins.kill, key=order.__getitem__
+                )
 
                 # Add interfering edges:
                 for tmp in live_and_def:
                     n1 = self.get_node(tmp)
-                    for tmp2 in live_and_def - {tmp}:
+                    for tmp2 in live_and_def:
+                        if tmp2 is tmp:
+                            continue
                         n2 = self.get_node(tmp2)
                         self.add_edge(n1, n2)
 
@@ -106,7 +123,7 @@ class InterferenceGraph(MaskableGraph):
         """Combine n and m into n and return n"""
         # Copy associated moves and temporaries into n:
         n.temps |= m.temps
-        n.moves.update(m.moves)
+        n.moves |= m.moves
 
         # Update local temp map:
         for tmp in m.temps:
